@@ -1,6 +1,6 @@
 (* Proofs for C14. *)
 From Coq Require Import List NArith ZArith Bool Lia Permutation Arith.
-From Scalibr Require Import Lib.SortSearch Convert.Bytes Convert.BytesProofs Convert.Generated_PurlTypes Convert.Purl
+From Scalibr Require Import Lib.SortSearch Convert.Bytes Convert.BytesProofs Convert.Generated_PurlTypes Convert.Generated_ProtoMeta Convert.Purl
   Convert.Pkg Convert.Index Convert.Proto Convert.Sbom.
 Import ListNotations.
 
@@ -13,6 +13,26 @@ Proof.
   assert (H : forallb valid_type emitted_types = true) by (vm_compute; reflexivity).
   intros t Ht. exact (forallb_In_bool _ _ H t Ht).
 Qed.
+
+(* setProtoMetadata clause table vs. the metadata types extractor sources store (both regenerated) *)
+Lemma emitted_metadata_has_case_on_D_lemma :
+  forall t, In t emitted_metadata_types -> in_D_meta t = true -> proto_case_of t <> None.
+Proof.
+  assert (H : forallb (fun t => negb (in_D_meta t) || match proto_case_of t with Some _ => true | None => false end)
+                      emitted_metadata_types = true) by (vm_compute; reflexivity).
+  intros t Ht HD. pose proof (forallb_In_bool _ _ H t Ht) as E. cbv beta in E. rewrite HD in E. simpl in E.
+  destruct (proto_case_of t); [discriminate|discriminate].
+Qed.
+
+Lemma emitted_metadata_has_case_refuted_lemma :
+  exists t, In t emitted_metadata_types /\ proto_case_of t = None.
+Proof. exists (s_osv_DepGroupMetadata, false). split; [vm_compute; tauto|vm_compute; reflexivity]. Qed.
+
+(* the exclusion list is exact: every listed type is emitted and has no clause *)
+Lemma known_no_proto_case_exact :
+  forallb (fun t => existsb (meta_type_eqb t) emitted_metadata_types &&
+                    match proto_case_of t with None => true | Some _ => false end) known_no_proto_case = true.
+Proof. vm_compute. reflexivity. Qed.
 
 Lemma valid_type_lower t : valid_type (to_lower t) = valid_type t.
 Proof.
